@@ -13,6 +13,11 @@ structure NWorld where
   clients : List (Nat × NetcodeClient) := []
   history : Array Bytes := #[]
   dead : Bool := false
+  /-- `nc-quiet 1`: emitted datagrams are printed as `#<length>` (the trace then does not depend on key material the
+      library draws at random) -/
+  quiet : Bool := false
+  /-- number of servers created without an explicit challenge key (each gets a key of its own) -/
+  made : Nat := 0
 
 def NWorld.init : NWorld := {}
 
@@ -283,8 +288,16 @@ def stepOp (w : NWorld) (toks : List String) : Option (NWorld × String) :=
       | .panic _ => some (die w)
     | _, _, _, _, _ => bad
   -- server --------------------------------------------------------------------------------------
+  | ["nc-quiet", b] =>
+    match pBool b with
+    | some b => some ({ w with quiet := b }, "ok")
+    | none => bad
   | ["srv-new", h, now, max, proto, secure, key, ckey, addrs] =>
-    match pU64 h, pU64 now, pU64 max, pU64 proto, pBool secure, pHexN 32 key, pHexN 32 ckey, pAddrs addrs with
+    -- `-`: the instance keeps the challenge key it drew itself (`generate_random_bytes`): a key of its own per instance
+    let own : Bytes := (List.range 32).map fun i => UInt8.ofNat ((i * 7 + w.made * 31 + 101) % 256)
+    let ckey? : Option Bytes := if ckey = "-" then some own else pHexN 32 ckey
+    let w := if ckey = "-" then { w with made := w.made + 1 } else w
+    match pU64 h, pU64 now, pU64 max, pU64 proto, pBool secure, pHexN 32 key, ckey?, pAddrs addrs with
     | some h, some now, some max, some proto, some secure, some key, some ckey, some addrs =>
       if addrs.any Option.isNone then bad else
       match NetcodeServer.new (now * 1000) max proto (addrs.filterMap id) secure key ckey with
@@ -454,6 +467,20 @@ def step (w : NWorld) (toks : List String) : Option (NWorld × String) :=
     match toks with
     | op :: _ => if isNetcodeOp op then some (w, "dead") else none
     | [] => none
-  else stepOp w toks
+  else
+    match stepOp w toks with
+    | some (w', out) =>
+      -- quiet mode: hide the bytes of an emitted datagram (the last field of send / connected / disconnected lines)
+      if w.quiet then
+        let t := out.splitOn " "
+        let hide := t.length ≥ 3 && (t.head? == some "send" || t.head? == some "connected" || t.head? == some "disconnected") &&
+          t.getLast? != some "none"
+        if hide then
+          let last := t.getLast?.getD ""
+          let n := if last = "-" then 0 else last.length / 2
+          some (w', " ".intercalate (t.dropLast ++ [s!"#{n}"]))
+        else some (w', out)
+      else some (w', out)
+    | none => none
 
 end RenetVerif.Netcode.Driver
